@@ -21,7 +21,7 @@ RULE = ("Sequential: bodies {JSON, invalid JSON, urlencoded, multipart, empty} x
         "<=3 (thorough 4) over {body, stream, stream-partial, json, form, close}, both interfaces. Concurrent (ASGI): 2-3 tasks x one access each from {body, json, form, "
         "stream} x yield vectors {0,1,3}^k before each access x 0/1 yields inside receive() x 3 chunkings x 3 disconnect positions x 3 body kinds. Non-trivial = sequence "
         "with >=2 body-touching accesses, or a disconnect, or a concurrent history; sequences are distinct by construction.")
-RULE += " Also: accurate Content-Length on half of the requests, payloads on GET / DELETE / PUT, minimal ASGI messages (optional keys omitted), every spelling of stream()'s chunk-size argument."
+RULE += " Also: request.stream() called and the iterator dropped unused (reads nothing); a second Request object on the same scope / environ with its own input channel; 2-4 requests in flight at once, each body arriving in pieces, read through one accessor; accurate Content-Length on half of the requests, payloads on GET / DELETE / PUT, minimal ASGI messages (optional keys omitted), every spelling of stream()'s chunk-size argument."
 ASSUMPTIONS = [
     "the outcome of close() is not judged (only that it consumes nothing)",
     "a partially iterated stream followed by a disconnect is 'partial', not ClientDisconnect",
@@ -29,7 +29,7 @@ ASSUMPTIONS = [
     "is_disconnected() is outside the statement's operation set and is not driven",
 ]
 
-OPS = ["body", "stream", "stream1", "json", "form", "close"]
+OPS = ["body", "stream", "stream1", "stream0", "json", "form", "close"]  # stream0: request.stream() is called and the iterator dropped unused
 MP = b'--bb\r\nContent-Disposition: form-data; name="a"\r\n\r\nv\r\n--bb\r\nContent-Disposition: form-data; name="f"; filename="x"\r\n\r\nDATA\r\n--bb--\r\n'
 BODIES = {
     "json": (b'{"a": [1, 2, 3]}', "application/json"),
@@ -102,6 +102,9 @@ def model(kind, bname, seq, disc, nchunks_nonempty_before_disc):
                 out.append(("partial-or-all",))
             else:
                 out.append(r)
+        elif op == "stream0":
+            # an iterator that is never advanced has read nothing: no state changes (an implementation may refuse to hand one out once the channel is used up)
+            out.append(("unused-or-consumed",) if st["consumed"] and "body" not in st["cache"] else ("unused",))
         elif op == "json":
             if "json" in st["cache"]:
                 out.append(st["cache"]["json"])
@@ -195,6 +198,12 @@ def run_wsgi_seq(bname, chunks, seq):
                 next(it, None)
                 it.close()
                 out.append(("partial-or-all",))
+            elif op == "stream0":
+                it = r.stream()
+                if len(seq) % 2:
+                    it.close()
+                del it
+                out.append(("unused",))
             elif op == "json":
                 v = r.json
                 out.append(("val", v))
@@ -248,6 +257,12 @@ def run_asgi_seq(bname, chunks, seq, disc):
                     await it.__anext__()
                     await it.aclose()
                     out.append(("partial-or-all",))
+                elif op == "stream0":
+                    it = r.stream()
+                    if len(seq) % 2:
+                        await it.aclose()
+                    del it
+                    out.append(("unused",))
                 elif op == "json":
                     v = await r.json
                     out.append(("val", v))
@@ -288,6 +303,7 @@ def judge_seq(ctx, kind, bname, chunks, seq, disc):
         if disc is not None:
             ctx.mon("disconnect-cases")
     ctx.mon("sequential-model")
+    got = [e if (e == ("unused-or-consumed",) and g in (("unused",), ("consumed",))) else g for g, e in zip(got, exp)] + got[len(exp):]
     if got != exp:
         i = next((i for i in range(min(len(got), len(exp))) if got[i] != exp[i]), 0)
         g, e = (got[i] if i < len(got) else None), (exp[i] if i < len(exp) else None)
@@ -515,6 +531,13 @@ def wsgi_transport(ctx, rng):
 
 
 def run(ctx):
+    # ---- the FIRST use in a fresh server process, pre-empted by a second request (one child process per switch point, vf/firstuse.py)
+    if ctx.shard == 0:
+        from vf import firstuse
+        firstuse.explore(ctx, "form", "request.form", max_points=12 if ctx.quick else 400)
+        ctx.case(("first-use", "form"))
+    else:
+        ctx.mon("first-use-pre-empted(fresh process)", 0)
     full = not ctx.quick
     maxlen = 3 if ctx.quick else 4
     idx = 0
@@ -561,10 +584,141 @@ def run(ctx):
                                 vectors.add((bname, disc is not None, vec))
                                 ctx.case_enum(True)
     ctx.extra["distinct_outcome_vectors"] = vectors
+    if ctx.shard == 0:
+        for op in ("body", "json", "stream"):
+            for first_reads in (True, False):
+                other_channel(ctx, op, first_reads)
+                ctx.case_enum(True)
+    else:
+        ctx.mon("second-request-object-own-channel", 0)
+    # ---- several requests in flight, each with its own body arriving in pieces
+    import random
+    rng = random.Random(ctx.seed * 1000 + ctx.shard)
+    for g in range(ctx.scale(40, 2000)):
+        op = rng.choice(["body", "json", "form", "stream"])
+        specs = [(rng.choice(["json", "urlenc", "multipart"] if op != "json" else ["json", "badjson"]), rng.choice([0, 2, 5]), str(2 + j)) for j in range(rng.choice([2, 3, 4]))]
+        in_flight(ctx, op, specs)
+        ctx.case(("in-flight", op, tuple(specs)))
     ctx.sample("concurrent", {"body": "urlenc", "chunk_lengths": [3, 8], "disconnect_at": None, "tasks": [("body", 0), ("form", 1), ("stream", 3)], "yields_in_receive": 1})
 
 
+def other_channel(ctx, op, first_reads):
+    """a second Request object built on the SAME scope / environ dict but with another input channel (a middleware that
+    rewrites the body hands the application its own receive / wsgi.input): it reads ITS channel, whatever the first object did"""
+    import asyncio
+    import io
+
+    from baize import asgi, wsgi
+    b1, b2 = b'{"who": "outer"}', b'{"who": "inner", "n": [1, 2]}'
+    hdrs = [("Content-Type", "application/json")]
+    case = {"second_request_object_on_the_same_scope": True, "op": op, "first_object_reads": first_reads}
+    want = {"body": b2, "json": {"who": "inner", "n": [1, 2]}, "stream": b2}[op]
+    # --- ASGI
+    scope = drivers.to_scope(drivers.Req(method="POST", headers=hdrs))
+
+    def channel(body):
+        msgs = drivers.body_messages([body[:5], body[5:]])
+
+        async def receive():
+            return msgs.pop(0) if msgs else {"type": "http.disconnect"}
+        return receive
+
+    async def main():
+        r1 = asgi.Request(scope, channel(b1))
+        if first_reads:
+            assert await r1.body == b1
+        r2 = asgi.Request(scope, channel(b2))
+        got = b"".join([c async for c in r2.stream()]) if op == "stream" else await getattr(r2, op)
+        if not first_reads:
+            assert await r1.body == b1
+        return got
+    ctx.mon("second-request-object-own-channel")
+    try:
+        got = drivers.loop().run_until_complete(main())
+        if got != want:
+            ctx.violation(f"second-request-object|reads-not-its-own-channel|{op}|asgi", case, f"{got!r} instead of {want!r}")
+    except Exception as e:  # noqa
+        ctx.violation(f"second-request-object|{type(e).__name__}|{op}|asgi", case, repr(e))
+    # --- WSGI
+    env = drivers.to_environ(drivers.Req(method="POST", headers=hdrs, chunks=[b1]))
+    try:
+        r1 = wsgi.Request(env)
+        if first_reads:
+            assert r1.body == b1
+        env["wsgi.input"], env["CONTENT_LENGTH"] = io.BytesIO(b2), str(len(b2))
+        r2 = wsgi.Request(env)
+        got = b"".join(r2.stream()) if op == "stream" else getattr(r2, op)
+        if got != want:
+            ctx.violation(f"second-request-object|reads-not-its-own-channel|{op}|wsgi", case, f"{got!r} instead of {want!r}")
+    except Exception as e:  # noqa
+        ctx.violation(f"second-request-object|{type(e).__name__}|{op}|wsgi", case, repr(e))
+
+
+def body_apps(op):
+    """applications that read the request body through one accessor and send back what they got"""
+    from baize import asgi, wsgi
+
+    def show(v):
+        if hasattr(v, "multi_items"):
+            return repr([(k, x if isinstance(x, str) else ("<file>", x.filename, x.read())) for k, x in v.multi_items()])
+        return repr(v)
+
+    async def ashow(v):
+        if hasattr(v, "multi_items"):
+            return repr([(k, x if isinstance(x, str) else ("<file>", x.filename, await x.aread())) for k, x in v.multi_items()])
+        return repr(v)
+
+    def wapp(environ, start_response):
+        req = wsgi.Request(environ)
+        try:
+            out = show(b"".join(req.stream()) if op == "stream" else getattr(req, op))
+        except Exception as e:  # noqa
+            out = "raised " + type(e).__name__
+        finally:
+            req.close()
+        start_response("200 OK", [("Content-Type", "text/plain")])
+        return [out.encode()]
+
+    async def aapp(scope, receive, send):
+        req = asgi.Request(scope, receive, send)
+        try:
+            if op == "stream":
+                out = show(b"".join([c async for c in req.stream()]))
+            else:
+                out = await ashow(await getattr(req, op))
+        except Exception as e:  # noqa
+            out = "raised " + type(e).__name__
+        finally:
+            await req.close()
+        await send({"type": "http.response.start", "status": 200, "headers": [(b"content-type", b"text/plain")]})
+        await send({"type": "http.response.body", "body": out.encode()})
+    return {"wsgi": wapp, "asgi": aapp}
+
+
+def in_flight(ctx, op, specs):
+    """several requests with bodies in flight at once (their messages arriving interleaved): each application call reads
+    exactly its own request's body (vf/inflight.py)"""
+    from vf import inflight
+    apps = body_apps(op)
+    reqs = []
+    for bname, cut, tag in specs:
+        body, ct = BODIES[bname]
+        body = body.replace(b"1", tag.encode()) if bname in ("json", "urlenc") else body.replace(b"DATA", b"DATA" + tag.encode())
+        chunks = [body[:cut], body[cut:cut * 2], body[cut * 2:]] if cut else [body]
+        reqs.append(drivers.Req(method="POST", headers=[("Content-Type", ct)], chunks=chunks))
+    for iface in ("wsgi", "asgi"):
+        inflight.check_group(ctx, iface, apps[iface], reqs, "request-body", {"in_flight_bodies": [list(x) for x in specs], "op": op})
+
+
 def replay(ctx, case):
+    if case.get("second_request_object_on_the_same_scope"):
+        other_channel(ctx, case["op"], case["first_object_reads"])
+        ctx.case(1)
+        return
+    if "in_flight_bodies" in case:
+        in_flight(ctx, case["op"], [tuple(x) for x in case["in_flight_bodies"]])
+        ctx.case(1)
+        return
     bname = case["body"]
     body = BODIES[bname][0]
     chunks, pos = [], 0
